@@ -102,7 +102,10 @@ def reference(case, data=None):
 
 def load(case, compiled=None):
     """Load the case's definition; a rejected definition is a violation (the generator emits supported grammar only)."""
-    cs = lib(libside.load, case["defs"], case["cfg"], compiled)
+    le = case["cfg"].get("load_endian")
+    cs = lib(libside.load, case["defs"], dict(case["cfg"], endian=le) if le else case["cfg"], compiled)
+    if le and not isinstance(cs, Err):
+        cs.endian = case["cfg"]["endian"]
     if isinstance(cs, Err):
         raise Violation(
             "definition-rejected",
